@@ -57,7 +57,7 @@ REQUIRED = (
      "c3:both-observable", "c3:config-file-only", "c4:lang-in-ttml", "c5:unsupported-input", "c5:unsupported-output",
      "c5:unknown-subcommand", "c4:lang-with-null-log-level", "c6:cli-valid", "c6:cli-invalid", "c6:cli-lenient-judged", "c6:parse-valid",
      "c6:parse-invalid", "c6:parse-lenient", "c7:hashseed-compared", "c7:history-compared", "c7:general-variants",
-     "c7:progress-judged", "c7:progress-shown", "c7:progress-after-incomplete-bar", "filter:lcd", "filter:lcd-twice", "filter:probe-order", "kind:unused", "kind:empty-module", "nontrivial"]
+     "c7:progress-judged", "c7:progress-shown", "c7:progress-after-incomplete-bar", "filter:lcd", "filter:lcd-twice", "filter:probe-order", "filter:unknown-name", "kind:unused", "kind:empty-module", "nontrivial"]
 )
 SHARD_TIMEOUT = {"quick": 600, "thorough": 3000}
 
@@ -344,6 +344,10 @@ def make_spec(rng, kind, in_fmt, out_fmt, src, data):
       s["out_name"] = "out" + rng.choice([".dat", ".out", "", "." + rng.choice(others_out), "." + rng.choice(["scc", "STL"])])
   elif kind == "filter":
     s["filters"] = rng.choice([["lcd"], ["lcd", "lcd"], ["vta", "vtb"], ["vtb", "vta"], ["vta", "lcd", "vtb"], ["vtb", "lcd", "vta", "vta"], ["lcd", "vtb"]])
+    if rng.random() < 0.3:
+      # a name that is no registered filter, anywhere in the list
+      s["filters"] = list(s["filters"])
+      s["filters"].insert(rng.randrange(len(s["filters"]) + 1), rng.choice(["no_such_filter", "lcd2", "LCDX", "isd"]))
     cfg = {}
     if rng.random() < 0.7 and "lcd" in s["filters"]:
       cfg["lcd"] = module_config(rng, "lcd")
@@ -657,7 +661,11 @@ def _check_case(ctx, wdir, spec, cli_first):
       ctx.violation(cls + "-leaves-output", "%s: output directory contains %s after %s" % (shown_argv, leftovers, cli["err"]), payload(spec))
     return None
 
-  used = R.used_modules(in_type, out_type, spec["filters"])
+  # names that are not registered document filters: the CLI may refuse them (error, judged like a refused lenient value) or
+  # skip them - the registered ones among the named filters are applied in order either way
+  known_filters = [f for f in spec["filters"] if f == "lcd" or f in R.PROBE_NAMES]
+  unknown_filter = len(known_filters) != len(spec["filters"])
+  used = R.used_modules(in_type, out_type, known_filters)
   inv, lenient, unknown, n_valid = classify_config(cfg, used)
   ctx.count("pair:%s->%s" % (in_type, out_type))
   ctx.count("kind:" + kind)
@@ -673,17 +681,22 @@ def _check_case(ctx, wdir, spec, cli_first):
       return
     base = with_readings(cfg, lenient) if lenient else cfg
     if not lenient:
-      lib["A"] = run_lib(R.compose, in_path, in_type, out_type, spec["filters"], cfg, "parse")
+      lib["A"] = run_lib(R.compose, in_path, in_type, out_type, known_filters, cfg, "parse")
     if not unknown:
-      lib["B"] = run_lib(R.compose, in_path, in_type, out_type, spec["filters"], base, "direct")
+      lib["B"] = run_lib(R.compose, in_path, in_type, out_type, known_filters, base, "direct")
       if lenient:
-        lib["Bflip"] = run_lib(R.compose, in_path, in_type, out_type, spec["filters"], with_readings(cfg, lenient, True), "direct")
+        lib["Bflip"] = run_lib(R.compose, in_path, in_type, out_type, known_filters, with_readings(cfg, lenient, True), "direct")
     if kind == "both" and spec["config"] is not None and spec["config_file"] is not None:
-      lib["X"] = run_lib(R.compose, in_path, in_type, out_type, spec["filters"], spec["config"], "parse")
+      lib["X"] = run_lib(R.compose, in_path, in_type, out_type, known_filters, spec["config"], "parse")
 
   if not cli_first:
     library()
   cli = run_cli(argv)
+  if unknown_filter:
+    ctx.count("filter:unknown-name")
+    if cli["status"] == "error":
+      ctx.count("filter:unknown-name-refused")
+      return None
   data = read_out(out_path) if cli["status"] == "ok" else None
   if cli_first:
     library()
@@ -871,6 +884,16 @@ def run_conv(ctx, work, p):
         spec = make_spec(rng, "lang", in_fmt, "ttml", src, data)
         spec["config"]["general"][null_key] = None
         check_case(ctx, work, spec)
+    # directed: a name that is no registered filter before / between registered ones
+    for k, fl in enumerate([["no_such_filter", "lcd"], ["lcd", "no_such_filter", "vta"], ["nope", "vtb", "vta"], ["vta", "lcd2", "lcd"]]):
+      rng = ctx.rng("unknown-filter", k)
+      in_fmt = R.IN_TYPES[k % len(R.IN_TYPES)]
+      src, data = pick_input(rng, inputs, in_fmt)
+      spec = make_spec(rng, "plain", in_fmt, "ttml", src, data)
+      spec["kind"] = "filter"
+      spec["filters"] = fl
+      spec["config"] = {"lcd": {"safe_area": 10, "color": "red"}}
+      check_case(ctx, work, spec)
     # directed history: a conversion whose progress never reaches 100% (document without body), then a conversion
     # with the progress bar disabled - the setting is honoured whatever the earlier conversion left behind
     for out_fmt in R.OUT_TYPES:
